@@ -434,7 +434,7 @@ impl Dht {
         let iter = self.get_mutable(public_key, salt, None);
         for item in iter {
             if let Some(mr) = &most_recent {
-                if item.seq() == mr.seq && item.value() > &mr.value {
+                if item.seq() > mr.seq || (item.seq() == mr.seq && item.value() > &mr.value) {
                     most_recent = Some(item)
                 }
             } else {
